@@ -34,7 +34,7 @@ pub fn run(args: &Args) -> i32 {
     .floor("c02:injected_reject", 20)
     .floor("c02:post_failure_walks", 5);
     let mut report = Report::new(args, spec);
-    let manifests_per_shard = scaled(args, args.tier.pick(12, 200));
+    let manifests_per_shard = scaled(args, args.tier.pick(40, 600));
     let budget = Duration::from_secs(budget_secs(args.tier, 75, 900));
     report.run_shards(2, args.threads, budget, |i, rng, shard| {
         let mut w = World::new(shard, rng, 4);
